@@ -165,9 +165,24 @@ def _aliased_dict():
     return {"x": d, "y": d}
 
 
+class LyingKey:
+    """A hashable key whose __class__ CLAIMS to be str (mock specs, lazy text proxies): it is not a string key."""
+
+    @property
+    def __class__(self):
+        return str
+
+    def __repr__(self):
+        return "LyingKey()"
+
+
 G_ODD = ChoiceGrammar("odd", (
     lambda: ([],), lambda: (1,), lambda: [[]], lambda: [1], lambda: None, lambda: {"a": []}, lambda: {"a": 1}, lambda: [], lambda: (), lambda: {},
     _aliased_list, _aliased_dict, lambda: [set()], lambda: {"a": 1, "b": "s"}, lambda: set(), lambda: [{"a": 1}, []],
+    # the same keys in another insertion order with the value types swapped (they match POSITIONALLY), inside a tuple
+    lambda: ({"id": 1, "name": "s"},), lambda: ({"name": 2, "id": "x"},),
+    # a dict whose only key claims to be a str without being one
+    lambda: {LyingKey(): 1},
 ))
 G_ODD12 = ChoiceGrammar("odd12", G_ODD.factories[:12])  # (quick pipeline variant)
 # key b carries an int in one dict and a str in another: the same key with different value types across merges
